@@ -30,7 +30,7 @@ META = dict(
                  "initial fields zero inside the PML slabs; wall conditions imposed on the initial interior state",
                  "recorder without compression modules (lossless)"],
     outside="lossy compression modules, non-default kappa/alpha at the inner face, conductive or dispersive media, T and shapes beyond the bounds",
-    bounds=dict(quick=dict(T=3, pml_thickness=[1, 2]), thorough=dict(T=6, pml_thickness=[1, 2, 3])),
+    bounds=dict(quick=dict(T=3, pml_thickness=[1, 2]), thorough=dict(T=5, pml_thickness=[1, 2, 3])),
     timeout_ms=dict(quick=60000, thorough=300000),
 )
 
@@ -52,11 +52,11 @@ def _scenes(tier):
 
 
 def cases(tier, seed):
-    T = 3 if tier == "quick" else 6
+    T = 3 if tier == "quick" else 5
     out = []
     for name, shape, b, th in _scenes(tier):
         for src in ("dipole", "none") if tier != "quick" else ("dipole",):
-            TT = T if np.prod(shape) <= 50 else max(3, T - 2)
+            TT = T if np.prod(shape) <= 50 else 3  # symbolic permittivities: term degree grows with 2T, >50 cells stay at 3 steps
             out.append(dict(name=f"{name}-{src}", shape=shape, bounds=b, thickness=th, src=src, T=TT, nonuniform="nonuniform" in name))
     return out
 
